@@ -62,7 +62,11 @@ def _trees(n: int):
         elif st:
             for p, c in st[:2]:
                 files["s/" + p.split("/")[-1]] = c
-        out.append((files, load.deep_merge(cfg, {"dry": {"enabled": True}})))
+        # two functions of depth 3 and 4 that sit between the per-language limits below
+        files["lim/deep.py"] = "def deep_py(a):\n    if a:\n        for x in a:\n            work(x)\n"
+        files["lim/deep.ts"] = "export function deepTs(a: number[]) {\n  if (a) {\n    for (const x of a) {\n      if (x) {\n        work(x);\n      }\n    }\n  }\n}\n"
+        # per-language limits that differ: a mixed-language run must judge each file by its own
+        out.append((files, load.deep_merge(cfg, {"dry": {"enabled": True}, "nesting": {"python": {"max_nesting_depth": 2}, "typescript": {"max_nesting_depth": 6}, "javascript": {"max_nesting_depth": 5}, "rust": {"max_nesting_depth": 3}}})))
     return out
 
 
@@ -93,6 +97,9 @@ def _probe_tree():
     # the project's own configuration is strict; alt/choice.yaml (for --config / config_file=)
     # mentions other sections only: nothing of the project's file may leak into such a run
     files["alt/choice.yaml"] = yaml_dump({"srp": {"max_methods": 9}, "dry": {"enabled": False}})
+    files["alt/empty.yaml"] = "# nothing chosen here\n"
+    # a source directory whose NAME ends like a compiled artefact
+    files["assets/scenes.obj/loader.py"] = "def load(n):\n    print(n, 3614)\n    return n\n"
     return files, load.deep_merge(cfg, {"dry": {"enabled": True}, "nesting": {"max_nesting_depth": 1}, "magic-numbers": {"allowed_numbers": []}, "ignore": ["cache.d"]})
 
 
@@ -253,17 +260,18 @@ def run_item(item) -> Acc:
             _diff_fail(acc, {"edge": "library-vs-cli", "target": "dir", "command": cmd}, {"tree": item["tree"], "cmd": cmd, "target": "."}, whole, lib, "Linter.lint(dir) vs CLI on the same directory")
             if item["tree"] == -1:
                 # an explicitly chosen configuration file: CLI --config vs Linter(config_file=...)
-                chosen, r = cli(["--config", "alt/choice.yaml", "."])
-                chosen = [t for t in chosen if t[1] in files]
-                env.reset_caches()
-                with obs.cwd(root):
-                    lib2 = [t for t in _nm(obs.norm([obs.vdict(v) for v in Linter(config_file=str(root / "alt/choice.yaml"), project_root=root).lint(root) if v.rule_id.startswith(prefix)], root, root), root) if t[1] in files]
-                acc.case(2)
-                acc.edge()
-                acc.valid()
-                if chosen or lib2:
-                    acc.nt((item["tree"], cmd, ".", "chosen-config"))
-                _diff_fail(acc, {"edge": "library-vs-cli", "target": "dir", "command": cmd, "config": "explicitly-chosen-file"}, {"tree": -1, "cmd": cmd, "target": "--config alt/choice.yaml ."}, chosen, lib2, "CLI --config FILE vs Linter(config_file=FILE) on the same directory")
+                for cfile, cname in (("alt/choice.yaml", "explicitly-chosen-file"), ("alt/empty.yaml", "explicitly-chosen-empty-file")):
+                    chosen, r = cli(["--config", cfile, "."])
+                    chosen = [t for t in chosen if t[1] in files]
+                    env.reset_caches()
+                    with obs.cwd(root):
+                        lib2 = [t for t in _nm(obs.norm([obs.vdict(v) for v in Linter(config_file=str(root / cfile), project_root=root).lint(root) if v.rule_id.startswith(prefix)], root, root), root) if t[1] in files]
+                    acc.case(2)
+                    acc.edge()
+                    acc.valid()
+                    if chosen or lib2:
+                        acc.nt((item["tree"], cmd, ".", cname))
+                    _diff_fail(acc, {"edge": "library-vs-cli", "target": "dir", "command": cmd, "config": cname}, {"tree": -1, "cmd": cmd, "target": f"--config {cfile} ."}, chosen, lib2, "CLI --config FILE vs Linter(config_file=FILE) on the same directory")
             # the same directory spelled as an absolute path
             whole_abs, r = cli([str(root)])
             whole_abs = [t for t in whole_abs if t[1] in files]
